@@ -33,6 +33,7 @@ import ZoektModel.C01.IterSpec
 import ZoektModel.C01.DocIterLemmas
 import ZoektModel.C01.SubstrLemmas
 import ZoektModel.C01.LineLemmas
+import ZoektModel.C01.BTreeLemmas
 namespace ZoektModel.C01
 
 /-- **one `evalMatchTree` call** on a consistent tree: the tree stays consistent, its plain value is unchanged, a decided
@@ -373,6 +374,32 @@ example : LinesOK [(0, 5), (5, 9), (9, 20)] ∧ (∀ c, c ∈ [[1, 10], [6, 12]]
   · intro c hc; simp at hc; rcases hc with h | h <;> subst h <;> simp [SortedC]
 example : lineLoop 4 [(0, 5), (5, 9), (9, 20)] [[1, 10], [6, 12]] 3 = true ∧
     lineLoop 3 [(0, 5), (5, 9)] [[1, 10], [6, 12]] 3 = false := by decide
+
+/-- **`btree_find_spec`** (L12): in a frozen b-tree that satisfies the search-tree invariant `covers` over the sorted
+    ngram section (leaves = consecutive buckets, separator = first ngram of the right sibling's first bucket — evaluated
+    by the driver on the tree of every correspondence case), `find(ng)` ends in the one bucket whose key range holds
+    `ng`, with the right posting-index offset -/
+theorem btree_find_spec (h : Nat) (ngs : List Nat) (ng : Nat) (t : BT) (hi : Nat)
+    (hc : t.covers h ngs 0 = some hi) : FindOK h ngs 0 hi ng (t.find ng) :=
+  BT.find_ok h ngs ng t 0 hi hc
+
+/-- **`btree_get_spec`** (L12): on such a tree over a strictly increasing ngram section, `btreeIndex.Get` (bucket read,
+    binary search, posting-list index) returns the index of a present ngram — for every section length, incl. exact
+    bucket multiples and the oversized last bucket — and nothing for an absent ngram -/
+theorem btree_get_spec (B : Nat) (ngs : List Nat) (t : BT) (last : Nat) (hs : SortedC ngs)
+    (hok : btOK B ngs t last = true) :
+    (∀ idx, idx < ngs.length → btGet B ngs t last (ngs.getD idx 0) = some idx) ∧
+    (∀ ng, ng ∉ ngs → btGet B ngs t last ng = Option.none) :=
+  btGet_spec B ngs t last hs hok
+
+/-! non-vacuity: bucketSize 4, v 2, eleven ngrams: the built tree has inner nodes and satisfies the invariant -/
+def exNgs : List Nat := [2, 3, 5, 7, 11, 13, 17, 19, 23, 29, 31]
+example : btOK 4 exNgs (btBuild 4 2 exNgs).1 (btBuild 4 2 exNgs).2 = true := by decide
+example : (btBuild 4 2 exNgs).1.innerKeys ≠ [] ∧ SortedC exNgs := by
+  refine ⟨by decide, ?_⟩
+  simp [exNgs, SortedC]
+example : btGet 4 exNgs (btBuild 4 2 exNgs).1 (btBuild 4 2 exNgs).2 17 = some 6 ∧
+    btGet 4 exNgs (btBuild 4 2 exNgs).1 (btBuild 4 2 exNgs).2 18 = Option.none := by decide
 
 /-! non-vacuity: a shard of 5 documents (document 3 dead), tree `and[doc-predicate, not(regexp verdicts), or[branch, none]]` -/
 def exCtx : Ctx := ⟨[[97], [98], [99], [100], [101]], [[], [], [], [], []], [true, true, true, false, true]⟩
